@@ -29,7 +29,8 @@ def vocab(focus="C09"):
     """C09 (link resolution) needs every target form; C10 (the anchors themselves) the titles and two plain targets"""
     targets = TARGETS if focus == "C09" else TARGETS[:2]
     titles = TITLES if focus == "C10" else [t for t in TITLES if t[0] != "a\nb"]
-    return [["h", s2c(t), lv] for t, lv in titles] + [["t", s2c(n), f] for n, f in targets]
+    # (a footnote whose label equals a heading's slug: the label is no link target)
+    return [["h", s2c(t), lv] for t, lv in titles] + [["t", s2c(n), f] for n, f in targets] + [["f", s2c("a"), "note"], ["f", s2c("b"), "note"]]
 
 
 def consts(maxitems, depths, slugfn="default", dev_suffix=False, dev_case=False, dev_nostrip=False):
@@ -66,8 +67,10 @@ def doc_text(items, links, wrap="none"):
                 lines += it[1].split("\n") + ["===" if it[2] == 1 else "---", ""]        # setext: the title spans source lines
             else:
                 lines += ["#" * it[2] + " " + it[1], ""]
-        elif (len(it) <= 2 or it[2] == "next") and nested(n + 1):
+        elif it[0] == "t" and (len(it) <= 2 or it[2] == "next") and nested(n + 1):
             lines.append(f"> ({it[1]})=")
+        elif it[0] == "f":
+            lines += [f"F{n + 1} [^{it[1]}]", "", f"[^{it[1]}]: footnote {n + 1}", ""]
         elif len(it) > 2 and it[2] == "attr":
             lines += ["{#%s}" % it[1], f"P{n + 1}", ""]
         elif len(it) > 2 and it[2] == "comment":
